@@ -12,735 +12,682 @@ Definition show_fres (r : fres) : string :=
   end.
 Definition check (rs : list rune) : string := digest (show_fres (format_res rs)).
 Definition full (rs : list rune) : string := show_fres (format_res rs).
-Eval vm_compute in ("<<<M198>>>" ++ check (runes_of_ascii "root packet int {
+Eval vm_compute in ("<<<M1528>>>" ++ check (runes_of_ascii "options
+    {	BodyLength  =
+char[	7  ]	;
+
+}
+        // c
+
 // @lengthOf(
+packet  asx// " ++ [128512]%N ++ runes_of_ascii " emoji
+
+  {int16 x_y_z
+    ,@calculatedFrom(""""
+	) @lengthOf( 
+    /// triple
+  	chars
+
+)//
+  	repeat
+    repeatCount
+charz
+
+    /// triple
 // " ++ [27880; 37322]%N ++ runes_of_ascii "
-@calculatedFrom( ""packet"")match repeatCount as asx {// packet A { u8 x, }
-65535:int ,
-"""":
-    packetx
-, [ 1, ""it's"", 007 , 3,
-    ""a\\"" , 65535 ] : o,
-[ 7 , 1 ]:
-    len [ ""abc""	,""" ++ [28040; 24687]%N ++ runes_of_ascii """ ] : u
-,} ,// packet A { u8 x, }
-@rightPad ( ' ' ) // " ++ [27880; 37322]%N ++ runes_of_ascii "
-len
-    body `{ , }` , }packet repeatCount { string
-trueish
-,@tag(
-0 )	repeat
-tag/// triple
-`{ , }` , // `tick` ""quote"" 'q'
-@tag(255 // @lengthOf(
-) match packetx as
-string_
-    {
-10 :roots, }//
-,
+
+  ,
 @leftPad
-(
-'\x00'	)
-    @tag( 7 ) repeat i8 // packet A { u8 x, }
-rootA
-/// triple
-// " ++ [128512]%N ++ runes_of_ascii " emoji
-`it's` , uint8x tag`a\` ,
-char[] Z9_ @calculatedFrom( //x
-""" ++ [233]%N ++ runes_of_ascii "t" ++ [233]%N ++ runes_of_ascii """
-    )
-, repeat float32
-trueish	, @leftPad ( /// triple
-'\x00'	)	i64_
-    @calculatedFrom( ""x y""
-    ) //
-, repeat f32 Packet ,  }
-    packet u
-    // c
-    {int64 pack@lengthOf(metadata ) ,	repeat
-    char[//	t
-0123456789 ] int
-    ``
-    , @lengthOf(
-    Header  )@calculatedFrom(""`tick`""
-)	float
-    trueish , @calculatedFrom(	""`tick`""
-    // a // b
-    ) stringy ,// " ++ [128512]%N ++ runes_of_ascii " emoji
-repeat Logon  `it's`  ,
-int32  Z9_ @calculatedFrom(
-""\n""), match// c
-u8x as falsey {
-255 : f32a ,
-00:packetx
-, } ,
-zchar[	0 ] roots , @tag( 00) Logon {
-    i64_
-@lengthOf( MetaDataX //
-) ``
-    , repeat body
-MetaDataX `it's`, x { string rootA ``
-    // a // b
-    , repeat options1 f32a , }//
-, Pad
-, // `tick` ""quote"" 'q'
-} , @calculatedFrom( ""1""
-    // packet A { u8 x, }
-    )@lengthOf(T ) char[
-7 ]	pack	`{ , }`	, } MetaData u {
-} /// triple")).
-Eval vm_compute in ("<<<M384>>>" ++ check (runes_of_ascii "options {
-	StringPrefixLenType = u16;
-	ArrayPrefixLenType = u16;
-}
+	(
+	)i64_
+	@calculatedFrom(""\" ++ [233]%N ++ runes_of_ascii """)
 
-packet SampleBinary {
-	uint16 MsgType `" ++ [28040; 24687; 31867; 22411]%N ++ runes_of_ascii "`,
-	u16 BodyLenght @lengthOf(Body) `" ++ [28040; 24687; 20307; 38271; 24230]%N ++ runes_of_ascii "`,
-	match MsgType as Body {
-		1 : Logon,
-		2 : Logout,
-		3 : Heartbeat,
-		4 : RiskControlRequest,
-		5 : RiskControlResponse,
-	},
-		@calculatedFrom(""CRC32"")
-	u32 Ckecksum `" ++ [26657; 39564; 21644]%N ++ runes_of_ascii "`,
-}
+`// not a comment`
 
-packet Logon {
-	 @leftPad('0')
-	char[10] UserName `" ++ [29992; 25143; 21517]%N ++ runes_of_ascii "`,
-	string Password `" ++ [23494; 30721]%N ++ runes_of_ascii "`,
-	uint64 ClientId `" ++ [23458; 25143; 31471]%N ++ runes_of_ascii "ID`,
-	u16 HeartbeatInterval `" ++ [24515; 36339; 38388; 38548]%N ++ runes_of_ascii "`,
-}
+    ,tag  Z9_
+`two words`
 
-packet Logout {
-	  @rightPad('0')
-	char[10] UserName `" ++ [29992; 25143; 21517]%N ++ runes_of_ascii "`,
-	uint64 ClientId `" ++ [23458; 25143; 31471]%N ++ runes_of_ascii "ID`,
-}
+, @lengthOf( asx )  @calculatedFrom(	""`tick`""
+)
+    match	uint8x
+	as 
+matchKey { 0123456789
+	// packet A { u8 x, }
+	// a // b
+:  u8x
 
-packet Heartbeat {
+    ,
+    1	:
+zchar  ,
 }
-
-packet RiskControlRequest {
-	string UniqueOrderId `" ++ [21807; 19968; 35746; 21333; 21495]%N ++ runes_of_ascii "`,
-	char[16] ClOrdID `" ++ [23458; 25143; 35746; 21333; 21495]%N ++ runes_of_ascii "`,
-	char[3] MarketID `" ++ [24066; 22330]%N ++ runes_of_ascii "id`,
-	char[12] SecurityID `" ++ [35777; 21048; 20195; 30721]%N ++ runes_of_ascii "`,
-	char Side `" ++ [20080; 21334; 26041; 21521]%N ++ runes_of_ascii "`,
-	char OrderType `" ++ [35746; 21333; 31867; 22411]%N ++ runes_of_ascii "`,
-	u64 Price `" ++ [20215; 26684]%N ++ runes_of_ascii "`,
-	u32 Qty `" ++ [25968; 37327]%N ++ runes_of_ascii "`,
-	repeat string ExtraInfo `" ++ [38468; 21152; 20449; 24687]%N ++ runes_of_ascii "`,
-	repeat SubOrder {
-			char[16] ClOrdID `" ++ [23376; 35746; 21333; 21495]%N ++ runes_of_ascii "`,
-			u64 Price `" ++ [23376; 35746; 21333; 20215; 26684]%N ++ runes_of_ascii "`,
-			u32 Qty `" ++ [23376; 35746; 21333; 25968; 37327]%N ++ runes_of_ascii "`,
-		},
-}
-
-packet RiskControlResponse {
-	string UniqueOrderId `" ++ [21807; 19968; 35746; 21333; 21495]%N ++ runes_of_ascii "`,
-	i32 Status `" ++ [29366; 24577]%N ++ runes_of_ascii "`,
-	string Msg `" ++ [32467; 26524; 20449; 24687]%N ++ runes_of_ascii "`,
-	repeat Detail,
-}
-
-packet Detail {
-	string RuleName `" ++ [35268; 21017; 21517; 31216]%N ++ runes_of_ascii "`,
-	u16 Code `" ++ [21407; 22240; 20195; 30721]%N ++ runes_of_ascii "`,
-}")).
-Eval vm_compute in ("<<<M1626>>>" ++ check (runes_of_ascii "  options {
-}
-options
-
-    { uint8x=  
-  // @lengthOf(
-  // " ++ [27880; 37322]%N ++ runes_of_ascii "
-  	42	uint8x = /// triple
-      ""abc"" ;//x
-  _x
-=
-'0'
-}
-packet u8x { zchar[ 1 ] 
-As	`crlf
-line`
-
 ,
+
+u128	@lengthOf(
+
+u128 	 // packet A { u8 x, }
+	) 	 // " ++ [128512]%N ++ runes_of_ascii " emoji
+,  } MetaData
+	msg_type { 
+string  BodyLength
+`two words`,
+	options1	// " ++ [128512]%N ++ runes_of_ascii " emoji
+  i64_ , } 	 // " ++ [128512]%N ++ runes_of_ascii " emoji
+  packet 
+roots {
+
+    u ``
+    ,  @calculatedFrom( ""a	b"" )
 
 match
-metadata  as
-float {""packet"": //
-
-trueish ,	}	,repeat rootA
-,  repeat
-metadata
-
-    repeatCount	// trailing space 
-,
-	@rightPad
-( 	 // `tick` ""quote"" 'q'
-    '0'
-
-    ) i64 body
-`// not a comment`,@tag( 
-1	)
-	string	string_
-	`line1
-line2`
-, 
-uint8  u8x
-`" ++ [28040; 24687; 31867; 22411]%N ++ runes_of_ascii "`	,
-packetx
-u128
-,
-
-u tag	, 
-repeat Logon
-
-    zchar `` 
-, }  packet
-zchar {
-    }
-packet 
-MetaDataX{ @lengthOf(  Packet
-
-    )
-
-    repeatCount int
-`doc` , @tag(
-7
-
-    )packetx
-
-    @calculatedFrom(""a\""b""  // c
-    ) , match
-
-    msg_type
-
-    as
-
-x
-    { ""\n""
-	:calculatedFrom
-}
-    , //x
-		@leftPad (// packet A { u8 x, }
-  '\x00' )	@lengthOf( MetaDataX  // c
-
-  )
-// a // b
-
-char[007  ]a1  `tab	here`
-, As
-
-@calculatedFrom( ""`tick`""	)`// not a comment`, }
-
-")).
-Eval vm_compute in ("<<<M379>>>" ++ check (runes_of_ascii "root
-    packet i64_ { trueish ,
-@calculatedFrom(""abc"") @tag( 7 )
-    // c
-    int16
-    asx
-, @calculatedFrom( ""a\\"" ) float32 crc
-@lengthOf(
-Foo ) ,	@tag( // `tick` ""quote"" 'q'
-42 // c
-) zchar[
+len
+as msg_type	{ 
 // c
-// packet A { u8 x, }
-7 ] asx @lengthOf( calculatedFrom) `// not a comment` , //
-repeat zchar[ 1]// a // b
-As ,	chars `two words` , @calculatedFrom( ""1"" )
+    """ ++ [28040; 24687]%N ++ runes_of_ascii """ : charz} , crc
+    @calculatedFrom( 
+	    // packet A { u8 x, }
+  // packet A { u8 x, }
+  ""it's"" 
+)`a\`	, 
+@leftPad  (
+'0' ) 
 @tag(
-    // `tick` ""quote"" 'q'
-    0123456789 ) @leftPad ('0')
-    repeat
-    char[] BodyLength `tab	here`, } MetaData u128 // packet A { u8 x, }
-{
-u16 i64_
-,
-    float32 asx//
-`two words` ,//
-i64
-leftPad, zchar[ 00 // `tick` ""quote"" 'q'
-] _x
-    , //
-} MetaData chars
-    //
-    {Foo crc
-`say ""hi""` , uint8 u`two words` , // " ++ [128512]%N ++ runes_of_ascii " emoji
-f32
-pack
-`crlf
-line`, string _x `" ++ [233]%N ++ runes_of_ascii "`  , } packet x_y_z{ } options { calculatedFrom = ""CRC32"" crc
-    = uint16 ; u =
-false
-    Foo
-=
-    char  } // " ++ [128512]%N ++ runes_of_ascii " emoji")).
-Eval vm_compute in ("<<<M1503>>>" ++ check (runes_of_ascii "
-options
+007)zchar[  // trailing space 
+    3
+	    // trailing space 
 
-{  StringPrefixLenType	= u8	;
+	]falsey
 
-ArrayPrefixLenType
-    =
-u32
+,  @calculatedFrom( // `tick` ""quote"" 'q'
 
-    ; FixedStringPadFromLeft = true
+	""\n""
+) @calculatedFrom(
+    ""CRC32""  // c
+) 
+        // trailing space 
+match 
+    //x
+  	Packet as // @lengthOf(
+	stringy {
 
-;FixedStringPadChar
-	=
+    1 :	Pad	,""it's""
+:
+    f32a	, },	@leftPad
+(' ')
+    match// " ++ [27880; 37322]%N ++ runes_of_ascii "
+int
+	as
+	a1 {
 
-    ' ' 
-;
-}	packet
+    [
 
-    Leg{
-	} 
-packet 
-Heartbeat
-{
-zchar[ 6] msgKind , 
-@rightPad (
-
-    '0'
-) char[ 3
-]
-Qty
-	,  zchar[
-
-9 ]Side2
-
-    ,
-i8 Acct	,
-    }packet
-    Logout{  int8  x, } packet 
-Order	{
-char[]	Acct
-	,
-zchar[
-8
+    0123456789 , 255
 
 ]
-count  ,u32
-	OrderId
-, uint8 lastPx ,u16 
-clOrdID, zchar[7
 
-    ]
-Note 
-, }
-	root
-packet
-Reject
-{ @leftPad
+:
 
-    (  ' '
-	)
+    options1 
+	//x
 
-char[ 
-8
-	]
-Side2
-
-    , i8 clOrdID ,
-repeat
-
-    f32	x	,  u32
-
-    lastPx,
-	match lastPx
-as 
-Body
-{[ 30
-    ,  147]
-
-:Heartbeat ,	134
-
-    :
-    Leg
-,
-
-183: Logout ,
-
-    40  : 
-Order  , 
-}
-
-    ,
-
-    u16
-Ref
-
-    @calculatedFrom(""CRC32"")
-	,
-}
-")).
-Eval vm_compute in ("<<<M1513>>>" ++ check (runes_of_ascii "options {
-    StringPrefixLenType = u8;
-    ArrayPrefixLenType = u32;
-    FixedStringPadFromLeft = true;
-    FixedStringPadChar = ' ';
-}
-
-packet Leg {
-}
-
-packet Heartbeat {
-    zchar[6] msgKind,
-    @rightPad('0')
-    char[3] Qty,
-    zchar[9] Side2,
-    i8 Acct,
-}
-
-packet Logout {
-    int8 x,
-}
-
-packet Order {
-    char[] Acct,
-    zchar[8] count,
-    u32 OrderId,
-    uint8 lastPx,
-    u16 clOrdID,
-    zchar[7] Note,
-}
-
-root packet Reject {
-    @leftPad(' ')
-    char[8] Side2,
-    i8 clOrdID,
-    repeat f32 x,
-    u32 lastPx,
-    match lastPx as Body {
-        [30, 147] : Heartbeat,
-        134 : Leg,
-        183 : Logout,
-        40 : Order,
-    },
-    u16 Ref @calculatedFrom(""CRC32""),
-}")).
-Eval vm_compute in ("<<<M154>>>" ++ check (runes_of_ascii "packet BodyLength
-    // a // b
-    {@rightPad (
-'\x00' )
-u8x/// triple
-,  @tag(  007
-) @calculatedFrom( ""packet""	) repeat  uint8x x_y_z, }
-    MetaData A {
-    // packet A { u8 x, }
-    Z9_ // a // b
-f32a ,
-    zchar[ 255// a // b
-]
-    msg_type`say ""hi""` ,char[ 1	]Logon  `tab	here` ,//
-}
-packet uint8x {  @calculatedFrom(
-""" ++ [28040; 24687]%N ++ runes_of_ascii """ )@tag(// `tick` ""quote"" 'q'
-65535)	u32 int
-@lengthOf( u8x )
-`say ""hi""`
-,	@leftPad ( ' ') stringy //
-{
-    string_ A ,
-    char[ 4294967296
-] i8i8 `" ++ [233]%N ++ runes_of_ascii "`	, char[]  Logon
-,
-string
-x_y_z@lengthOf(	Packet ),
-} , zchar[	4294967296 ]
-int	`{ , }` , }
-// trailing space 
-// " ++ [27880; 37322]%N ++ runes_of_ascii "
-packet u8x
-    { }
-// a // b
-")).
-Eval vm_compute in ("<<<M1609>>>" ++ check (runes_of_ascii "options{
-
-    rootA =
-4294967296
-	;
-falsey	=
-""a\""b""  ;
-
-    As
-=  
-  // @lengthOf(
-  /// triple
-    	"""" ;
-	packetx
-    =""packet"" i8i8
-
-=true
-;	} 	 // `tick` ""quote"" 'q'
-	packet	x	{repeat
-    zchar
-
-rootA ,
-
-char[] 
-pack
-
-    `// not a comment`
-, 
-@tag( 00 )
-    @tag( 
-0123456789) u
-@calculatedFrom(
-	""packet""
-    )
-
-    `u8 x,`
-    ,
-	Header
-
-    {  zchar[ 00 ]
-
-body,
-    a1
-    @calculatedFrom( 	 // " ++ [128512]%N ++ runes_of_ascii " emoji
-    ""it's"" )`" ++ [233]%N ++ runes_of_ascii "`	,
-} 
-,}// " ++ [27880; 37322]%N ++ runes_of_ascii "
-
-MetaData
-
-A // a // b
-{ zchar 	 /// triple
-	matchKey ``
-
-    ,
-
-int64
-	metadata  ,
-char[]
-_x 	 //	t
-      , }
-")).
-Eval vm_compute in ("<<<M1779>>>" ++ check (runes_of_ascii "options
-
-{
-	float = char[]} // packet A { u8 x, }
-
-root packet Logon
-	{ 
-@tag(
-1
-    )// a // b
-  @calculatedFrom(
-
-    ""packet""  
-      // a // b
-    // " ++ [128512]%N ++ runes_of_ascii " emoji
-    )
-zchar[3	] 
-// c
   //x
-		Z9_
-
-,
-@lengthOf(charz )	@calculatedFrom(  ""1""
-    )
-match  roots
-    as 
-int{""a	b"" : MetaDataX,
-} 
-,
-    @calculatedFrom( ""a\""b""
-    ) match
-
-asx
-as lengthOf	{ """ ++ [128512]%N ++ runes_of_ascii """
-
-    : _x ,[
-
-255
-
-    ]	:
-
-BodyLength ,3:
-u8x,	0123456789
-    :
-
-T} 
-,  len	@lengthOf( leftPad 
-)
-	`u8 x,`
-    ,
-
-    }  // @lengthOf(
-")).
-Eval vm_compute in ("<<<M264>>>" ++ check (runes_of_ascii "options  {
-    float
-=
-    char[]
-} // packet A { u8 x, }
-root packet
-    Logon
-    { @tag( 1 ) // a // b
-@calculatedFrom( ""packet""
-// a // b
-// " ++ [128512]%N ++ runes_of_ascii " emoji
-)zchar[ 3 ]
-// c
-//x
-Z9_ ,@lengthOf( charz )
-@calculatedFrom( ""1""
-)match
-roots
-as int
-    { ""a	b""
-:MetaDataX , }
-    ,@calculatedFrom( ""a\""b""	)
-    match
-    asx as lengthOf { """ ++ [128512]%N ++ runes_of_ascii """
-    : _x,
-[ 255 ] : BodyLength
-    ,3 :
-    u8x , 0123456789:T} ,
-    len@lengthOf(leftPad )`u8 x,` , } // @lengthOf(")).
-Eval vm_compute in ("<<<M126>>>" ++ check (runes_of_ascii "
-packet T// c
-{ @tag(  00 )repeat char[]	charz
-`
-` , char[0123456789 ]BodyLength
-    @lengthOf( //x
-Z9_
-    )
-    `u8 x,`
-,
-}	MetaData
-crc {
-float64
-int `" ++ [28040; 24687; 31867; 22411]%N ++ runes_of_ascii "`// a // b
-,	As Logon `` , // `tick` ""quote"" 'q'
-uint8 // " ++ [27880; 37322]%N ++ runes_of_ascii "
-u
-, u32  stringy `
-`,
-// a // b
-//	t
-uint64 uint8x , asx
-calculatedFrom	,//x
-} MetaData chars { char[ 1
-    // `tick` ""quote"" 'q'
-    ] //	t
-chars ,
-    } // trailing space ")).
-Eval vm_compute in ("<<<M75>>>" ++ check (runes_of_ascii "packet zchar { @calculatedFrom( ""`tick`""
-) uint32
-    falsey,} MetaData packetx {
-string
+	  }
+    ,  BodyLength 
 //
-// @lengthOf(
-msg_type `u8 x,`, }packet i8i8 {zchar@lengthOf(
-uint8x
-    ) ,
-    }packet As{ zchar[ 4294967296
+
+	@calculatedFrom(
+	""" ++ [28040; 24687]%N ++ runes_of_ascii """),float32 zchar@calculatedFrom(  ""// no comment"" )  ,  @tag(	10 )
+zchar[ 
+
+    // packet A { u8 x, }
+  1 ] 
+rootA ,
+} ")).
+Eval vm_compute in ("<<<M123>>>" ++ check (runes_of_ascii "
+packet _x{  leftPad `it's`
+    , match Logon as
+    matchKey { ""packet"" :  stringy,3
+: u
+    ,//
+""1"" : Pad }
+,  float32 Z9_ @lengthOf( i8i8	)
+    `" ++ [233]%N ++ runes_of_ascii "`
     // " ++ [27880; 37322]%N ++ runes_of_ascii "
-    ] T	@calculatedFrom( ""abc"" ) , @tag(007 )
-    repeat
-    i16
-// " ++ [27880; 37322]%N ++ runes_of_ascii "
-// packet A { u8 x, }
-u8x `say ""hi""`, @lengthOf( u )
-repeat uint16 u128 , }")).
-Eval vm_compute in ("<<<M1326>>>" ++ check (runes_of_ascii "options {
-    LittleEndian = true;
-    StringPrefixLenType = u16;
-    FixedStringPadChar = ' ';
+    , @tag( 3 )match
+    //	t
+    As as Pad{
+"""" : chars
+, ""x y"" //
+: i64_	,  } ,  @calculatedFrom(""it's"" // c
+) @leftPad ( ' '
+) zchar[ 0123456789	] falsey , match	A as packetx
+{ [ 42]:
+matchKey // c
+, }// `tick` ""quote"" 'q'
+,@leftPad
+( ' ' )
+    match x
+    // c
+    as a1 { ""packet"" //x
+:
+    a1 , 10 : pack""{,}"" :  u8x// a // b
+, [ 007
+,00// trailing space 
+]
+:trueish ,
+    ""x y"" :pack //	t
+,
+""" ++ [233]%N ++ runes_of_ascii "t" ++ [233]%N ++ runes_of_ascii """
+:
+matchKey , } , @leftPad ( '0'
+) uint8x u
+    ,	zchar[
+    3 // a // b
+]
+    //	t
+    u ``
+    , @rightPad (
+    ' ') repeat _x
+`` , } MetaData Foo
+    {a1 Z9_ ,
+options1 T ,u32 u8x
+`crlf
+line`, metadata falsey,lengthOf
+x_y_z ,
+    } packet calculatedFrom { @tag( 3 ) string A,
+    match leftPad as a1	{//	t
+0123456789: calculatedFrom , }
+    ,
+    match crc//
+as
+    body {
+    00 : _x, } , o @calculatedFrom(	""x y"" )
+//
+// " ++ [128512]%N ++ runes_of_ascii " emoji
+,  } packet T { }  packet Logon { @leftPad
+(// @lengthOf(
+'\x00' )
+As @calculatedFrom(
+""a	b"" ) `line1
+line2`	, pack lengthOf // `tick` ""quote"" 'q'
+, } // `tick` ""quote"" 'q'")).
+Eval vm_compute in ("<<<M1498>>>" ++ check (runes_of_ascii "root packet crc {
+    @lengthOf(As)
+    @calculatedFrom(""\" ++ [233]%N ++ runes_of_ascii """)
+    zchar[4294967296] MetaDataX `doc`,/// triple
+    rootA @calculatedFrom(""it's""),
+    @tag(65535)
+    @tag(7)
+    @tag(00)
+    len @lengthOf(A) `two words`,
+    // trailing space 
+    // " ++ [128512]%N ++ runes_of_ascii " emoji
+    string rootA @lengthOf(pack),
+    // " ++ [128512]%N ++ runes_of_ascii " emoji
+    // trailing space 
+    repeat zchar,
+    @calculatedFrom(""abc"")
+    @leftPad('\x00')
+    @rightPad()
+    match x_y_z as Z9_ {
+        ""it's"" : Logon,
+        ""x y"" : Packet,
+        ""abc"" : trueish,
+        4294967296 : repeatCount,
+        """ ++ [128512]%N ++ runes_of_ascii """ : x_y_z,
+    },
+    char[10] stringy `it's`,
+    @leftPad('\x00')
+    rootA @lengthOf(i64_),
+}
+
+MetaData falsey {
+    Packet repeatCount `tab	here`,
+}
+
+MetaData string_ {
+    float64 roots `line1
+    line2`,
+    char As `
+    `,
+    zchar[65535] falsey `a\`,
+    A T,
+    _x metadata,
+}
+
+packet _x {
+    zchar[255] string_ @lengthOf(u128) `{ , }`,
+}
+
+root packet Packet {
+    repeat lengthOf,
+}")).
+Eval vm_compute in ("<<<M1350>>>" ++ check (runes_of_ascii "options {
+    StringPrefixLenType = u64;
+    ArrayPrefixLenType = u32;
+    FixedStringPadFromLeft = false;
+}
+packet Party {
+    zchar[7] OrderId,
+    InTail6 {
+        repeat char[1] msgKind,
+        char[3] Tail,
+        char[3] Flags,
+        i16 tag7,
+    },
+    @rightPad('0') char[12] clOrdID,
+}
+packet Quote {
+    @leftPad('0') char[11] price,
+    repeat InCount7 {
+        i32 x,
+        Party,
+        u8 Ref,
+        u8 tag7,
+    },
+    char[] seqNo,
+    Party,
 }
 packet Logon {
-    @leftPad('0') char[10] tag7,
+    @rightPad('\x00') char[5] Note,
+    i16 sym,
+    InPrice72 {
+        char[9] Ref,
+        zchar[1] venue,
+    },
+    char[] clOrdID,
 }
-root packet Ack {
-    int32 Px,
-    uint16 count,
-    string Qty,
-    string OrderId,
-    string Flags,
-    u8 x,
+root packet Reject {
+    repeat Logon,
+    @leftPad(' ') char[4] seqNo,
+    zchar[5] Acct,
+    u32 x,
+    u16 f1 @lengthOf(Body),
     match x as Body {
-        [58, 169] : Logon,
+        [169, 74] : Quote,
+        45 : Party,
+        7 : Logon,
     },
 }
 ")).
-Eval vm_compute in ("<<<M232>>>" ++ check (runes_of_ascii "options {  A = i16
+Eval vm_compute in ("<<<M1483>>>" ++ check (runes_of_ascii "packet 	 // packet A { u8 x, }
+  tag	{
+
+@calculatedFrom(	""x y""  )lengthOf{options1`
+`, 
+}	,
+
+    @tag( 
+7
+
+    )
+    int  { 
+    //x
+
+// " ++ [27880; 37322]%N ++ runes_of_ascii "
+  char[  007 
+] // `tick` ""quote"" 'q'
+      calculatedFrom
+@lengthOf(
+metadata 
+) ,
+
+tag
+@lengthOf(falsey) , f32 
+// " ++ [128512]%N ++ runes_of_ascii " emoji
+    calculatedFrom 
+	// `tick` ""quote"" 'q'
+
+	//
+
+	`{ , }`
+    ,  i8i8 {  string i64_	@lengthOf(
+asx  )
+
+`it's`	, 
+u 
+@calculatedFrom(
+
+""\n""
+)
+, }
+
+    ,
+} 
+,
+@calculatedFrom(	""abc""  //
+)
+@leftPad( 
+' '
+	)  uint64  calculatedFrom	, 	 // " ++ [27880; 37322]%N ++ runes_of_ascii "
+
+	}
+packet
+o  { Header,
+@lengthOf(
+
+i8i8 )
+
+float32
+
+Pad  // c
+  ,
+
+char[
+
+42]leftPad
+@calculatedFrom(
+	"""" // " ++ [128512]%N ++ runes_of_ascii " emoji
+    )	, 
+@tag(255
+
+)body u
+,
+    } 
+packet lengthOf
+
+{ 
+    // packet A { u8 x, }
+	// c
+  @tag(
+255 	 //x
+      )char[ 0123456789	]
+	o
+`
+`,  }
+")).
+Eval vm_compute in ("<<<M369>>>" ++ check (runes_of_ascii "root
+packet leftPad { @calculatedFrom( """ ++ [128512]%N ++ runes_of_ascii """) int64 len
+`{ , }` , } packet
+    u128
+    { zchar[ 65535 ] chars @calculatedFrom( ""\" ++ [233]%N ++ runes_of_ascii """
+    ), @lengthOf(  int
+// packet A { u8 x, }
+// @lengthOf(
+) i64_ , crc { match	Z9_ as Logon
+    {
+10 : int ,
+[ 0 ]
+: u8x ,
+// trailing space 
+//x
+42 :
+    trueish , [ ""\" ++ [233]%N ++ runes_of_ascii """ , 4294967296
+    ]
+:Z9_
+    ""\n""	: u128 ,	} ,
+    repeat string_ uint8x, i8i8 , match u as body
+{ 4294967296:
+// " ++ [27880; 37322]%N ++ runes_of_ascii "
+/// triple
+Z9_, 10
+:	Z9_,
+[ """ ++ [128512]%N ++ runes_of_ascii """
+    ,
+    ""x y"" ]
+: pack ,
+    } , }
+, @tag( // " ++ [128512]%N ++ runes_of_ascii " emoji
+0123456789 )
+    @lengthOf( calculatedFrom) @leftPad ( '\x00' // c
+) zchar[ 3 ]
+    T ,
+match A  as
+    leftPad{ [ """ ++ [28040; 24687]%N ++ runes_of_ascii """ ] :i64_""// no comment"" :
+    string_
+    ,
+} , } // trailing space ")).
+Eval vm_compute in ("<<<M122>>>" ++ check (runes_of_ascii "
+packet u128  { // trailing space 
+string  Header `say ""hi""` , repeat crc
+f32a,
+    char[ 10
+    ] _x	,	@calculatedFrom( ""x y""	) repeat
+    //
+    charz	{
+    Logon @lengthOf(T) `crlf
+line`
+, repeat char[ // trailing space 
+0123456789 ]Z9_
+    `crlf
+line` ,
+    } ,
+    match Packet
+    as
+// " ++ [128512]%N ++ runes_of_ascii " emoji
+// `tick` ""quote"" 'q'
+float // a // b
+{
+    1
+:  lengthOf }  ,  MetaDataX , match x as
+u8x { 10 :crc } , } root packet // `tick` ""quote"" 'q'
+Header // a // b
+{ @calculatedFrom( ""{,}"") a1
+    {  char[
+    // packet A { u8 x, }
+    007 ] pack ,stringy //x
+zchar
+    , repeat
+char[]
+    // " ++ [128512]%N ++ runes_of_ascii " emoji
+    o `it's`	, } , }")).
+Eval vm_compute in ("<<<M113>>>" ++ check (runes_of_ascii "options	{
+As
+= // packet A { u8 x, }
+' '}MetaData o{} root packet pack
+{ } packet tag // " ++ [128512]%N ++ runes_of_ascii " emoji
+{ match falsey as
+BodyLength	{ 4294967296
+:
+    lengthOf
+// c
+// " ++ [27880; 37322]%N ++ runes_of_ascii "
+,[ ""x y""
+,""a\\""
+    ]
+    : rootA , [
+42 , ""a	b"" ,
+    ""CRC32"" , 65535 ,""abc"" , 007 ]
+:
+u8x	""x y"" : A ,
+    /// triple
+    65535 :  i64_,
+    0123456789 :
+    Packet }
+    , @lengthOf(  msg_type)	pack msg_type,
+    @tag( 0 )@lengthOf( Packet
+)/// triple
+@tag(
+3 )
+//	t
+// " ++ [128512]%N ++ runes_of_ascii " emoji
+Foo , repeat float64 zchar, @calculatedFrom(
+""a\""b""
+) @lengthOf(A )@lengthOf( roots
+) options1 @lengthOf(
+Z9_ ),char[] T ,  }")).
+Eval vm_compute in ("<<<M1872>>>" ++ check (runes_of_ascii "options {
+    ArrayPrefixLenType = u64;
+    FixedStringPadFromLeft = true;
+    FixedStringPadChar = '0';
+}
+
+packet Quote {
+}
+
+packet Ack {
+    repeat InNote66 {
+        u8 pad0,
+    },
+}
+
+packet Reject {
+}
+
+root packet Order {
+    Quote,
+    repeat Reject,
+    string venue,
+    string seqNo,
+    uint32 Ref,
+    u16 lastPx,
+    u32 clOrdID @lengthOf(Body),
+    match lastPx as Body {
+        190 : Reject,
+        186 : Quote,
+        22 : Ack,
+    },
+    u16 Flags @calculatedFrom(""CR\
+        C32""),
+}")).
+Eval vm_compute in ("<<<M138>>>" ++ check (runes_of_ascii "packet Header{ char[	10
+] A`it's` , @calculatedFrom(	""" ++ [28040; 24687]%N ++ runes_of_ascii """)calculatedFrom // a // b
+@lengthOf( zchar ) `tab	here` ,  u32	BodyLength,
+@lengthOf(
+    stringy  ) //
+@rightPad (
+    ' ') @tag(
+0123456789 )
+body{ match i8i8 as
+Foo
+{ [ 7 ,	""CRC32"" ] : options1 ,[""a\""b"" , """ ++ [128512]%N ++ runes_of_ascii """ ,
+    ""it's""
+    , ""a	b"" ,
+""// no comment"" , ""it's"" , 7,""abc""  ] :
+As  ,
+1 :
+_x
+// " ++ [128512]%N ++ runes_of_ascii " emoji
+//
+} , repeat  uint8x{crc
+@calculatedFrom( ""a\\""
+), } ,
+    repeat  i8 tag ,// " ++ [128512]%N ++ runes_of_ascii " emoji
+}
+, }
+
+")).
+Eval vm_compute in ("<<<M0>>>" ++ check (runes_of_ascii "packet leftPad// trailing space 
+{@tag( 10 )
+    @tag( 007 ) @lengthOf(	a1 )
+// a // b
+//
+repeat metadata
+    ,
+} // " ++ [128512]%N ++ runes_of_ascii " emoji
+options
+    // @lengthOf(
+    { lengthOf
+= """ ++ [128512]%N ++ runes_of_ascii """	;
+}  packet T
+    // " ++ [27880; 37322]%N ++ runes_of_ascii "
+    { A
+{
+//
+// `tick` ""quote"" 'q'
+tag@calculatedFrom(""abc"")
+, }
+    , @lengthOf( matchKey
+    ) string	Header @lengthOf( metadata
+) ,leftPad
+    // trailing space 
+    @calculatedFrom(
+""a\""b"" )`crlf
+line`,}
+")).
+Eval vm_compute in ("<<<M74>>>" ++ check (runes_of_ascii "options{ u = 7
+    // " ++ [27880; 37322]%N ++ runes_of_ascii "
+    roots
+=zchar[
+65535
+    ]
+msg_type = """ ++ [233]%N ++ runes_of_ascii "t" ++ [233]%N ++ runes_of_ascii """
+; x =false
+    } MetaData string_ { char[ // trailing space 
+42
+//x
+// " ++ [128512]%N ++ runes_of_ascii " emoji
+]
+i8i8 `" ++ [28040; 24687; 31867; 22411]%N ++ runes_of_ascii "`	, u8
+    x_y_z
+, packetx lengthOf``
+    // " ++ [27880; 37322]%N ++ runes_of_ascii "
+    ,
+T Header `line1
+line2` ,
+char[] // " ++ [27880; 37322]%N ++ runes_of_ascii "
+u8x `two words` ,}packet
+float //x
+{
+    calculatedFrom
+    ,
+@rightPad ( '0'
+) char[
+    3
+] u128 , } 	 ")).
+Eval vm_compute in ("<<<M100>>>" ++ check (runes_of_ascii "
+root packet
+a1
+    {
+tag Pad``
+, } options {
+}
+    root packet int	{
+    uint64 f32a , } packet
+MetaDataX {// c
+@leftPad( ' ' ) /// triple
+repeat uint16 Header	`{ , }`
+,
+// `tick` ""quote"" 'q'
+/// triple
+}
+options {
+Z9_= false
+    falsey //	t
+= ""x y"" ; rootA = false
+    // a // b
+    Foo	=true
+lengthOf
+    = float64 }")).
+Eval vm_compute in ("<<<M262>>>" ++ check (runes_of_ascii "  packet  Logon
+    { o Header ,	Header
+, @lengthOf(
+u )	char[ 255 ] tag `tab	here`, char[]falsey ,
+    @lengthOf(	zchar )
+    @rightPad (
+) float roots// @lengthOf(
+,
+@calculatedFrom(	""// no comment"") i64
+u8x,
+} options { metadata = '0' ;_x = 4294967296 ; Packet
+    =
+    '0'
 ;
     }
-    /// triple
-    root
-packet
-    rootA{
-    @tag( 7)int16 pack,Logon @calculatedFrom( ""a\""b"" ) `{ , }`
-    , @rightPad ( '\x00' )
-//
-//
-char[
-7
-    // `tick` ""quote"" 'q'
-    ]options1
-`tab	here`,@calculatedFrom(
-""" ++ [233]%N ++ runes_of_ascii "t" ++ [233]%N ++ runes_of_ascii """ )int @lengthOf(
-Packet
-) `crlf
-line`, }
+
 ")).
-Eval vm_compute in ("<<<M1320>>>" ++ check (runes_of_ascii "packet P1 {
-    u8 a,
-}
-packet P2 {
-    P1,
-}
-packet P3 {
-    P2,
-    P1,
-}
-packet P4 {
-    repeat P3,
-    P2,
-}
-root packet P5 {
-    P4,
-    P3,
-    P1,
-    u8 K,
-    match K as Body {
-        4 : P4,
-        3 : P3,
-        2 : P2,
-        1 : P1,
-    },
-}
+Eval vm_compute in ("<<<M80>>>" ++ check (runes_of_ascii "packet
+    len { // trailing space 
+repeat zchar f32a `// not a comment` , @tag( 255 )repeat  Pad { x T
+, } , @calculatedFrom(
+""{,}"") repeat
+    // a // b
+    leftPad { u64 u8x `tab	here` ,o Packet
+    ,char[] chars , } , @tag( 3 )float64
+    i8i8 , }
 ")).
-Eval vm_compute in ("<<<M1505>>>" ++ check (runes_of_ascii "MetaData chars {
-    uint64 A,
-    msg_type asx,
-    Z9_ a1,
-    stringy i64_ `doc`,
+Eval vm_compute in ("<<<M124>>>" ++ check (runes_of_ascii "MetaData Z9_
+{zchar[4294967296 ]
+    leftPad `u8 x,`,
 }
-
-packet x_y_z {
-}
-
-options {
-    float = float32
-    rootA = false;
-    repeatCount = char[10];
-}
-
-packet Z9_ {
-    zchar[007] charz,
-}//x")).
+MetaData body { trueish
+    len `// not a comment` , }root
+packet // @lengthOf(
+u8x{ char[ 10 ] x
+    @calculatedFrom(
+// a // b
+// packet A { u8 x, }
+""\" ++ [233]%N ++ runes_of_ascii """ ) , }
+")).
 Eval vm_compute in ("<<<M92>>>" ++ check (runes_of_ascii "packet lengthOf { } root packet leftPad {  zchar[00// a // b
 ]
     Foo `` // c
@@ -753,35 +700,76 @@ Eval vm_compute in ("<<<M92>>>" ++ check (runes_of_ascii "packet lengthOf { } ro
 ( ' ')
 repeat u8
 options1 , }")).
-Eval vm_compute in ("<<<M1583>>>" ++ check (runes_of_ascii "options {
-    As = true
-    MetaDataX = true
-}
+Eval vm_compute in ("<<<M1476>>>" ++ check (runes_of_ascii "
+packet  A 
+{match 
+k as
 
-packet A {
-    repeat calculatedFrom `say ""hi""`,
-}
+n
+{  [
 
-MetaData crc {
-    u crc,
-    uint32 body,
-    i16 stringy `u8 x,`,
-}")).
-Eval vm_compute in ("<<<M187>>>" ++ check (runes_of_ascii "
-options// " ++ [27880; 37322]%N ++ runes_of_ascii "
-{
-f32a= ""a\""b""//x
-; Z9_ = // " ++ [27880; 37322]%N ++ runes_of_ascii "
-""`tick`""	Logon
-    // " ++ [27880; 37322]%N ++ runes_of_ascii "
-    =""CRC32""u128= f64 ;rootA	=
-false ;} //	t
-packet lengthOf {
-} MetaData len { }
+    ""a"" 
+, 
+22
+
+,	""c c"", 4
+
+    ,
+
+    ""e"",
+
+    66
+
+    , ""g""
+	,	8 ,  ""i"" 
+, 10 
+, ""k"" ,12
+
+    ]
+	:
+    B
+
+2 :
+C 
+}, }
+
 ")).
-Eval vm_compute in ("<<<M413>>>" ++ check (runes_of_ascii "packet uint8x
-{ match float32
-    as msg_type	{
+Eval vm_compute in ("<<<M1525>>>" ++ check (runes_of_ascii "
+
+  packet 
+A
+
+{match
+
+k
+
+as  n
+
+    {
+[
+    ""a"" 
+,  ""bb""
+,""c c""  ,""d""
+,
+""e"", ""f""
+
+    ,""g"" 
+, ""h"" 
+]
+:  B
+
+    ,
+
+    2 
+:
+    C
+    }
+,
+
+    } ")).
+Eval vm_compute in ("<<<M416>>>" ++ check (runes_of_ascii "packet uint8x
+{ match pack
+    as as msg_type	{
     0123456789 :	float
 }
 ,
@@ -798,18 +786,18 @@ crc //x
 = ""abc"" ;
     msg_type =
 @leftpad i16 }")).
-Eval vm_compute in ("<<<M452>>>" ++ check (runes_of_ascii "packet uint8x
+Eval vm_compute in ("<<<M457>>>" ++ check (runes_of_ascii "packet uint8x
 { match pack
     as msg_type	{
     0123456789 :	float
 }
-}
-, packet //	t
+,
+packet } //	t
 a1
     { } options {packetx
     = '\x00'	; u128= ""a	b""  ; }
 ")).
-Eval vm_compute in ("<<<M485>>>" ++ check (runes_of_ascii "packet uint8x
+Eval vm_compute in ("<<<M495>>>" ++ check (runes_of_ascii "packet uint8x
 { match pack
     as msg_type	{
     0123456789 :	float
@@ -817,24 +805,28 @@ Eval vm_compute in ("<<<M485>>>" ++ check (runes_of_ascii "packet uint8x
 ,
 } packet //	t
 a1
-    { } options packetx
-    = '\x00'	; u128= ""a	b""  ; }
+    { } options {packetx
+     '\x00'	; u128= ""a	b""  ; }
 ")).
-Eval vm_compute in ("<<<M1418>>>" ++ check (runes_of_ascii "// top
-packet Inner {
-    // c2a
-    // c2b
-    u8 a,
-}
+Eval vm_compute in ("<<<M1534>>>" ++ check (runes_of_ascii "
+packet 
 
-// c6
-root packet P {
-    // c10
-    Inner ref_obj,// c13a
-    // c13b
-    u8 x,
-}// c17a")).
-Eval vm_compute in ("<<<M1684>>>" ++ check (runes_of_ascii "packet A {
+    // " ++ [27880; 37322]%N ++ runes_of_ascii "
+Logon
+
+{
+	repeatCount@lengthOf(roots  ) ,
+	@tag(0
+
+    ) repeat	zchar[
+
+007] crc
+, rootA
+    a1	`{ , }`
+	,	string_ 
+`" ++ [233]%N ++ runes_of_ascii "`
+,}")).
+Eval vm_compute in ("<<<M1871>>>" ++ check (runes_of_ascii "packet A {
     match k as n {
         [
             ""a"", ""bb"", ""c c"", ""d"", ""e"",
@@ -843,29 +835,19 @@ Eval vm_compute in ("<<<M1684>>>" ++ check (runes_of_ascii "packet A {
         2 : C,
     },
 }")).
-Eval vm_compute in ("<<<M1622>>>" ++ check (runes_of_ascii "packet
-A{	match
+Eval vm_compute in ("<<<M1649>>>" ++ check (runes_of_ascii "
+options
 
-    k as n { [1
-,
-22	,  ""c c""
-, 4, 5  ,
+    {
+	o=  '\x00'	// " ++ [128512]%N ++ runes_of_ascii " emoji
+  ;
+    T=	u32 ; 
+msg_type  
+      // `tick` ""quote"" 'q'
 
-""f""	,
-7	,
-
-    8 , 
-""i""
-
-    , 10
-,  11
-
-    ,""l""
-] :B
-2
-    :
-C  }
-	, }")).
+//
+    = ""a	b""a1 =	'\x00'	}
+	// " ++ [128512]%N ++ runes_of_ascii " emoji")).
 Eval vm_compute in ("<<<M714>>>" ++ check (runes_of_ascii "// @lengthOf(
 packet i8i8 { u128 o , }
 options { MetaDataX = true;
@@ -873,38 +855,61 @@ options { MetaDataX = true;
 crc //x
 = ""abc"" ;
     msg_type")).
-Eval vm_compute in ("<<<M1822>>>" ++ check (runes_of_ascii "packet Logon {
-    repeatCount @lengthOf(roots),
-    @tag(0)
-    repeat zchar[007] crc,
-    rootA a1 `{ , }`,
-    string_ `" ++ [233]%N ++ runes_of_ascii "`,
+Eval vm_compute in ("<<<M1397>>>" ++ check (runes_of_ascii "packet A {
+    match k as n {
+        [
+            ""a"", 22, ""c c"", 4, ""e"",
+            66
+        ] : B,
+        2 : C,
+    },
 }")).
-Eval vm_compute in ("<<<M1845>>>" ++ check (runes_of_ascii "MetaData Packet {
-    u lengthOf `say ""hi""`,
-}
-
-MetaData metadata {
-    crc chars `crlf
-        line`,
-    asx f32a,
-}")).
-Eval vm_compute in ("<<<M1172>>>" ++ check (runes_of_ascii "MetaData leftPad { chars MetaDataX , } packet repeatCount { char[ 255 ] uint8x `" ++ [233]%N ++ runes_of_ascii "`
-// c
-, } MetaData pack { As Foo , }")).
-Eval vm_compute in ("<<<M1319>>>" ++ check (runes_of_ascii "
-packet FooBar  {  u8
-	a , }
-    packet  foo_bar
-
-    {  u16 
-b
-
-    , } root
-	packet R{FooBar , foo_bar
-,	}
+Eval vm_compute in ("<<<M1194>>>" ++ check (runes_of_ascii "// top
+packet // c0
+body // c1
+{ // c2
+i32 // c3
+f32a // c4
+`{ , }` // c5
+, // c6
+} // c7
+options // c8
+{ // c9
+} // c10
 ")).
-Eval vm_compute in ("<<<M489>>>" ++ check (runes_of_ascii "packet uint8x
+Eval vm_compute in ("<<<M1160>>>" ++ check (runes_of_ascii "MetaData leftPad { chars MetaDataX , } packet repeatCount
+// c
+{ char[ 255 ] uint8x `" ++ [233]%N ++ runes_of_ascii "` , } MetaData pack { As Foo , }")).
+Eval vm_compute in ("<<<M1906>>>" ++ check (runes_of_ascii "
+packet A	{  match k
+
+as  n	{[
+
+    ""a""
+, 
+""bb"" 
+,	007 , ""d"", ""e""
+    ]
+	:
+
+    B
+	,
+
+    2  :C
+
+} ,
+
+    } ")).
+Eval vm_compute in ("<<<M943>>>" ++ check (runes_of_ascii "packet A {
+    u16 len @lengthOf(body) `a
+
+b`,
+    u32 crc @calculatedFrom(""CRC32"") `a
+
+b`,
+    string body,
+}")).
+Eval vm_compute in ("<<<M535>>>" ++ check (runes_of_ascii "packet uint8x
 { match pack
     as msg_type	{
     0123456789 :	float
@@ -912,151 +917,142 @@ Eval vm_compute in ("<<<M489>>>" ++ check (runes_of_ascii "packet uint8x
 ,
 } packet //	t
 a1
-    { } options")).
-Eval vm_compute in ("<<<M926>>>" ++ check (runes_of_ascii "packet A {
+    { } opti")).
+Eval vm_compute in ("<<<M950>>>" ++ check (runes_of_ascii "packet A {
     Inner {
-        u8 x `a
-b`,
+        u8 x `x
+`,
         Deep {
-            u8 y `a
-b`,
+            u8 y `x
+`,
         },
     },
 }")).
-Eval vm_compute in ("<<<M1925>>>" ++ check (runes_of_ascii "// top
-root packet P {
-    // c3a
-    // c3b
-    repeat string ss,// c7
-    repeat u16 ns,
-}// c12a")).
-Eval vm_compute in ("<<<M605>>>" ++ check (runes_of_ascii "
+Eval vm_compute in ("<<<M1820>>>" ++ check (runes_of_ascii "packet  A{
+match k
+as n
+
+    {  [1
+,
+22	,
+007
+,  4
+, 5  ,
+
+66, 
+7  , 
+8
+	,
+9]:
+	B
+2:C }
+	,}
+
+")).
+Eval vm_compute in ("<<<M841>>>" ++ check (runes_of_ascii "packet A {
+  match k as n {
+    [""a"", ""bb"", ""c c"", ""d"", ""e"", ""f"", ""g""] : B,
+    2 : C
+  },
+}")).
+Eval vm_compute in ("<<<M644>>>" ++ check (runes_of_ascii "
 packet
     asx {match u128 as lengthOf
 {
 //	t
 // `tick` ""quote"" 'q'
-255 : repeat ,
+255 : x" ++ [178]%N ++ runes_of_ascii " ,
     } ,	}")).
-Eval vm_compute in ("<<<M563>>>" ++ check (runes_of_ascii "
+Eval vm_compute in ("<<<M607>>>" ++ check (runes_of_ascii "
 packet
-    asx { {match u128 as lengthOf
+    asx {match u128 as lengthOf
 {
 //	t
 // `tick` ""quote"" 'q'
-255 : x ,
+255 : x 
     } ,	}")).
-Eval vm_compute in ("<<<M564>>>" ++ check (runes_of_ascii "
-packet
-    asx match{ u128 as lengthOf
-{
-//	t
-// `tick` ""quote"" 'q'
-255 : x ,
-    } ,	}")).
-Eval vm_compute in ("<<<M1480>>>" ++ check (runes_of_ascii "packet
-
-    A {
-match
-    k  as
-	n
-	{ [  1
-,
-
-    22 , ""c c"" ]	:B 2
-
-: C}
-
-,
-    }
-")).
-Eval vm_compute in ("<<<M390>>>" ++ check (runes_of_ascii "root packet SimpleMessage {
-	uint16 MsgType `" ++ [28040; 24687; 31867; 22411]%N ++ runes_of_ascii "`,
-	string JsonBody `Json" ++ [23383; 31526; 20018; 28040; 24687; 20307]%N ++ runes_of_ascii "`,
+Eval vm_compute in ("<<<M969>>>" ++ check (runes_of_ascii "packet A {
+    u32 crc @calculatedFrom(""x\
+y""),
+    @calculatedFrom(""x\
+y"") u8 y,
 }")).
-Eval vm_compute in ("<<<M833>>>" ++ check (runes_of_ascii "packet A {
-  match k as n {
-    [""a"", 22, ""c c"", 4, ""e"", 66] : B
-    2 : C
-  },
-}")).
-Eval vm_compute in ("<<<M820>>>" ++ check (runes_of_ascii "packet A {
-  match k as n {
-    [""a"", 22, ""c c"", 4, ""e""] : B
-    2 : C
-  },
-}")).
-Eval vm_compute in ("<<<M804>>>" ++ check (runes_of_ascii "packet A {
-  match k as n {
-    [1, ""bb"", 007, ""d""] : B,
-    2 : C
-  },
-}")).
-Eval vm_compute in ("<<<M108>>>" ++ check (runes_of_ascii "packet int {}
-options {leftPad ='0' ;metadata= char[] Foo=
-'0' ; }
-")).
-Eval vm_compute in ("<<<M1568>>>" ++ check (runes_of_ascii "
-options 
-{len
-
-    =// " ++ [128512]%N ++ runes_of_ascii " emoji
-      ""packet""int 
-=  ""abc"" } ")).
-Eval vm_compute in ("<<<M939>>>" ++ check (runes_of_ascii "MetaData M {
-    u8 x `a
-    b
-  c`,
-    T t `a
-    b
-  c`,
-}")).
-Eval vm_compute in ("<<<M27>>>" ++ check (runes_of_ascii "options{Logon = """ ++ [28040; 24687]%N ++ runes_of_ascii """
-    ; BodyLength =
-    false
-; }
-")).
-Eval vm_compute in ("<<<M1206>>>" ++ check (runes_of_ascii "packet body { i32
-// c
-f32a `{ , }` , } options { }")).
-Eval vm_compute in ("<<<M927>>>" ++ check (runes_of_ascii "MetaData M {
-    u8 x `a
-b`,
-    T t `a
-b`,
-}")).
-Eval vm_compute in ("<<<M1893>>>" ++ check (runes_of_ascii "root packet A {
-    u8 x `a
-    
-    b`,
-}")).
-Eval vm_compute in ("<<<M1672>>>" ++ check (runes_of_ascii "root packet A {
-    u8 x `a
-    b`,
-}")).
-Eval vm_compute in ("<<<M958>>>" ++ check (runes_of_ascii "root packet A {
-    u8 x `
-x`,
-}")).
-Eval vm_compute in ("<<<M1023>>>" ++ check (runes_of_ascii "packet A {
- u8 x `d" ++ [8239]%N ++ runes_of_ascii "`, // c" ++ [8239]%N ++ runes_of_ascii "
-}")).
-Eval vm_compute in ("<<<M1545>>>" ++ check (runes_of_ascii "MetaData	u
-    {// c
+Eval vm_compute in ("<<<M748>>>" ++ check (runes_of_ascii "options match @lengthOf( options char[] zchar[ MetaData f32 f64 u16 ""{,}"" `doc` (")).
+Eval vm_compute in ("<<<M125>>>" ++ check (runes_of_ascii "//	t
+options {
+    roots  =  ""\n""	; o
+    //
+    = '0' ;
+tag
+    =true
     }")).
-Eval vm_compute in ("<<<M1407>>>" ++ check (runes_of_ascii "
-
-  packet
-	x { }	// c")).
-Eval vm_compute in ("<<<M1667>>>" ++ check (runes_of_ascii "MetaData tag {
-}// c")).
-Eval vm_compute in ("<<<M997>>>" ++ check (runes_of_ascii "// c" ++ [5760]%N ++ runes_of_ascii "
-packet A {
+Eval vm_compute in ("<<<M806>>>" ++ check (runes_of_ascii "packet A {
+  match k as n {
+    [""a"", 22, ""c c"", 4] : B,
+    2 : C
+  },
 }")).
-Eval vm_compute in ("<<<M1829>>>" ++ check (runes_of_ascii "packet i64_
-{ 
-}
+Eval vm_compute in ("<<<M798>>>" ++ check (runes_of_ascii "packet A {
+  match k as n {
+    [""a"", ""bb"", 007] : B
+    2 : C
+  },
+}")).
+Eval vm_compute in ("<<<M167>>>" ++ check (runes_of_ascii "packet msg_type { repeat// " ++ [27880; 37322]%N ++ runes_of_ascii "
+zchar[  007] Logon `two words`, }
 ")).
-Eval vm_compute in ("<<<M356>>>" ++ check (runes_of_ascii "packet uint8x {}")).
-Eval vm_compute in ("<<<M749>>>" ++ check ([1; 65533]%N ++ runes_of_ascii ">&EQX" ++ [65533]%N ++ runes_of_ascii "P" ++ [65533; 65533]%N)).
-Eval vm_compute in ("<<<M1055>>>" ++ check (runes_of_ascii "// c" ++ [6158]%N)).
+Eval vm_compute in ("<<<M1102>>>" ++ check (runes_of_ascii "// top
+MetaData
+    // c0
+tag
+    // c1
+{ // c2
+}
+    // c3
+")).
+Eval vm_compute in ("<<<M764>>>" ++ check (runes_of_ascii "float32 true uint8 f32 i64 i32 @leftPad ) char[ } uint8")).
+Eval vm_compute in ("<<<M1205>>>" ++ check (runes_of_ascii "packet body { i32 // c
+f32a `{ , }` , } options { }")).
+Eval vm_compute in ("<<<M654>>>" ++ check (runes_of_ascii "// @lengthOf(
+packet i8i8 { u128 o , }
+options {")).
+Eval vm_compute in ("<<<M1725>>>" ++ check (runes_of_ascii "  packet A
+
+    {
+	u8 x	,  // c
+  u8
+y,	} ")).
+Eval vm_compute in ("<<<M1815>>>" ++ check (runes_of_ascii "root packet A {
+    u8 x `
+        `,
+}")).
+Eval vm_compute in ("<<<M946>>>" ++ check (runes_of_ascii "root packet A {
+    u8 x `a
+
+b`,
+}")).
+Eval vm_compute in ("<<<M1790>>>" ++ check (runes_of_ascii "packet A {
+    u8 x `
+    x`,
+}")).
+Eval vm_compute in ("<<<M1941>>>" ++ check (runes_of_ascii "packet	A{ } 
+        // c" ++ [8203]%N ++ runes_of_ascii "
+ 
+")).
+Eval vm_compute in ("<<<M1494>>>" ++ check (runes_of_ascii "root packet msg_type {
+}")).
+Eval vm_compute in ("<<<M1110>>>" ++ check (runes_of_ascii "MetaData tag {
+// c
+}")).
+Eval vm_compute in ("<<<M1687>>>" ++ check (runes_of_ascii "packet int {
+}
+//	t")).
+Eval vm_compute in ("<<<M1036>>>" ++ check (runes_of_ascii "packet A {
+}
+// c" ++ [12]%N)).
+Eval vm_compute in ("<<<M1029>>>" ++ check (runes_of_ascii "packet A {
+}// c" ++ [11]%N)).
+Eval vm_compute in ("<<<M1662>>>" ++ check (runes_of_ascii "packet pack {
+}")).
+Eval vm_compute in ("<<<M399>>>" ++ check (runes_of_ascii "packet")).
+Eval vm_compute in ("<<<M736>>>" ++ check (runes_of_ascii " " ++ [12]%N ++ runes_of_ascii " ")).
